@@ -1,10 +1,15 @@
 package main
 
 import (
+	"bytes"
+	"context"
 	"fmt"
 	"regexp"
 	"sort"
 	"strings"
+	"testing/fstest"
+
+	"github.com/titpetric/vuego"
 )
 
 // C04: v-for. Templates are generated as trees of probe elements and loops; every probe prints
@@ -37,7 +42,7 @@ func c04Coq(ts []*c04Tpl) string {
 	next := c04Coq(ts[1:])
 	if t.kind == "print" {
 		return fmt.Sprintf("(TPrint %d %s %s)", t.id, coqList(t.views, func(v c04View) string {
-			return map[string]string{"text": "VText ", "expr": "VExpr ", "attr": "VAttr "}[v.kind] + coqBytes(v.path)
+			return map[string]string{"text": "VText ", "expr": "VExpr ", "attr": "VAttr ", "prop": "VProp "}[v.kind] + coqBytes(v.path)
 		}), next)
 	}
 	cond := "None"
@@ -49,6 +54,15 @@ func c04Coq(ts []*c04Tpl) string {
 func c04Src(ts []*c04Tpl) string {
 	var sb strings.Builder
 	for _, t := range ts {
+		if t.kind == "print" && len(t.views) > 0 && t.views[0].kind == "prop" {
+			// realised through an include: the probe component prints the props it was given
+			attrs := ""
+			for k, v := range t.views {
+				attrs += fmt.Sprintf(` :v%d="%s"`, k, v.path)
+			}
+			fmt.Fprintf(&sb, `<template include="probe%d.vuego" pid="%d"%s></template>`, len(t.views), t.id, attrs)
+			continue
+		}
 		if t.kind == "print" {
 			// record order: text/expr views first (joined by |), then attribute views
 			var texts []string
@@ -184,7 +198,18 @@ func (g *c04Gen) printNode(scope map[string]string) *c04Tpl {
 		}
 	}
 	if len(t.views) == 0 {
-		t.views = append(t.views, c04View{kind: "text", path: "x"})
+		t.views = append(t.views, c04View{kind: "text", path: "zzundefined"})
+	}
+	if g.r.Intn(4) == 0 { // the same probe through an included component with bound props
+		var ps []c04View
+		for _, v := range t.views {
+			if v.kind == "text" && len(ps) < 3 {
+				ps = append(ps, c04View{kind: "prop", path: v.path})
+			}
+		}
+		if len(ps) > 0 {
+			t.views = ps
+		}
 	}
 	g.views[t.id] = t.views
 	return t
@@ -350,11 +375,7 @@ func runC04(r *Run) {
 		goData := data.Go()
 		var out string
 		var err error
-		if m, ok := goData.(map[string]any); ok {
-			out, err = c03Render(src, m)
-		} else {
-			out, err = c03RenderAny(src, goData)
-		}
+		out, err = c04Render(src, goData)
 		var obs Obs
 		if err != nil {
 			obs = L(A("error"), A(err.Error()))
@@ -367,4 +388,26 @@ func runC04(r *Run) {
 		coq := fmt.Sprintf("{| c_data := %s; c_tpl := %s |}", data.Coq(), c04Coq(tpl))
 		r.Case("loops", coq, obs, map[string]any{"template": src, "data": data.Desc()}, map[string]string{"struct_root": fmt.Sprint(g.struc)}, nontrivial)
 	}
+}
+
+func c04Render(src string, data any) (string, error) {
+	m := fstest.MapFS{}
+	for k := 1; k <= 3; k++ {
+		var parts []string
+		for i := 0; i < k; i++ {
+			parts = append(parts, fmt.Sprintf("{{ v%d }}", i))
+		}
+		m[fmt.Sprintf("probe%d.vuego", k)] = &fstest.MapFile{Data: []byte(`<i data-m="{{ pid }}">` + strings.Join(parts, "|") + `</i>`)}
+	}
+	var buf bytes.Buffer
+	var err error
+	func() {
+		defer func() {
+			if x := recover(); x != nil {
+				err = fmt.Errorf("PANIC %v", x)
+			}
+		}()
+		err = vuego.NewFS(m).Fill(data).RenderString(context.Background(), &buf, src)
+	}()
+	return buf.String(), err
 }
